@@ -5,3 +5,7 @@ CLAIMS["C02"] = ("exploration",
     "Hypothesis-generated documents plus an exhaustive rows x nrow x strategy sweep, round-trip oracle through an independent RTF reader (both directions: nothing missing, nothing extra, order, text). " + _EXPL,
     _READER + " ASCII text only (C10 owns Unicode).",
     "property-based testing: Hypothesis-generated recipes + exhaustive sweep, round-trip oracle via independent RTF reader")
+CLAIMS["C01"] = ("exploration",
+    "Universal document strategy (tables, multi-section, figures; all optional components, header modes, placements, strategies, attribute shapes, half-point sizes) plus an exhaustive skeleton sweep; oracle = encode succeeds (ValueError only for reference-non-contiguous group_by) and the independent reader finds one balanced {\\rtf1 group, no lexical error, #cellx==#cell per row with positive non-decreasing boundaries. " + _EXPL,
+    _READER,
+    "property-based testing / fuzzing: Hypothesis universal document generator + skeleton enumeration, validity predicate from an independent RTF lexer/reader")
